@@ -75,3 +75,17 @@ pub enum Slot {
     #[scpi(mnemonic = b"OUTPut10")]
     Output10,
 }
+
+/// a suffix of zero next to the default suffix: `PORT0` is neither `PORT` nor `PORT1`, and its zero is a digit like any
+/// other (a writer or matcher that trims zeros would turn it into the unsuffixed form - seed C09-M)
+#[derive(Copy, Clone, PartialEq, Debug, ScpiEnum)]
+pub enum Port {
+    #[scpi(mnemonic = b"PORT0")]
+    Port0,
+    #[scpi(mnemonic = b"PORT1")]
+    Port1,
+    #[scpi(mnemonic = b"PORT20")]
+    Port20,
+    #[scpi(mnemonic = b"OUTPut0")]
+    Output0,
+}
